@@ -203,6 +203,8 @@ def run_check(mod, tier, base_seed, budget_s=None, quiet=False):
         budget = float(budget_s if budget_s is not None else os.environ.get("VERIF_BUDGET_S", "600"))
     else:
         budget = None
+    if hasattr(mod, "prepare"):
+        mod.prepare(tier)
     gen = mod.batches(tier, base_seed)
     known = [k for k in load_known() if k.get("property") == mod.PROPERTY]
     known_open = {k["signature"]: k for k in known if k.get("status") == "known"}
